@@ -844,6 +844,6 @@ def docs_meshes(ctx, k):
 
 
 FAMILIES = [Family("rt-" + kd, random_case(kd), quick=q, thorough=th, budget={"quick": 40, "thorough": 500})
-            for kd, q, th in (("tri", 100, 4000), ("quad", 100, 4000), ("tet", 90, 3600), ("hex", 90, 3600))]
+            for kd, q, th in (("tri", 200, 8000), ("quad", 200, 8000), ("tet", 170, 6800), ("hex", 170, 6800))]
 FAMILIES.append(Family("directed", directed, len(DIRECTED), len(DIRECTED), budget={"quick": 60, "thorough": 120}))
 FAMILIES.append(Family("docs-meshes", docs_meshes, 1, 40, budget={"quick": 60, "thorough": 300}))
